@@ -251,13 +251,18 @@ def run(ctx):
                         vis_mut = True
                         if a.func.attr in ("extend", "update") and a.args and any(isinstance(x, ast.Name) and x.id in comp_names for x in ast.walk(a.args[0])):
                             marked = True
+                        # member by member: `for m in component: visited.append(m)`
+                        if a.func.attr in ("append", "add") and a.args and isinstance(a.args[0], ast.Name):
+                            for lp_ in v.enclosing_all(a, (ast.For,)):
+                                if isinstance(lp_.target, ast.Name) and lp_.target.id == a.args[0].id and any(isinstance(x, ast.Name) and x.id in comp_names for x in ast.walk(lp_.iter)):
+                                    marked = True
                     if isinstance(a, ast.Call) and isinstance(a.func, ast.Attribute) and a.func.attr in ("append", "add", "extend", "insert") and isinstance(a.func.value, ast.Name) and a.func.value.id != vis:
                         res_mut = True
                         if a.func.attr == "append" and a.args and any(isinstance(x, ast.Name) and x.id in comp_names for x in ast.walk(a.args[0])):
                             appended = True
                     if isinstance(a, (ast.Yield,)):
                         res_mut = True
-                res.add("CC-COVER", f, f"{vis} += component", "mark-visited", "ok" if marked else ("unknown" if vis_mut and not comp_names else "violation"), "" if marked else "the nodes of a found component are not marked visited (components would be reported repeatedly)", loc(v.fi, g))
+                res.add("CC-COVER", f, f"{vis} += component", "mark-visited", "ok" if marked else ("unknown" if vis_mut else "violation"), "" if marked else "the nodes of a found component are not marked visited (components would be reported repeatedly)", loc(v.fi, g))
                 res.add("CC-COVER", f, "components.append(component)", "collect", "ok" if appended else ("unknown" if res_mut and not comp_names else "violation"), "" if appended else "a found component is not added to the result", loc(v.fi, g))
     with res.guard("B-LARGEST"):
         check_largest_component(ctx, res)
